@@ -260,7 +260,9 @@ def match_known(known, key):
 
 
 def write_replay(prop, v):
-    d = os.path.join(VERIF, 'replays', prop)
+    # runs against a scratch tree (mutants) must not pollute the committed replays
+    d = os.path.join(VERIF, 'replays', prop) if os.path.realpath(REPO) == '/repo' else \
+        os.path.join(VERIF, 'replays', '_scratch', prop)
     os.makedirs(d, exist_ok=True)
     doc = dict(property=prop, clause=v['clause'], key=v['key'], case=v['case'],
                observed=v.get('observed'), expected=v.get('expected'), detail=v.get('detail'))
@@ -326,8 +328,10 @@ def finish(prop, tier, result, level, rule, t0, coverage=None, assumptions=None,
     ev = dict(property_id=prop, tier=tier, seed=seed(), level=level, coverage=cov,
               assumptions=assumptions or [], wall_s=round(time.time() - t0, 2),
               violations=len(new), repo=REPO)
-    os.makedirs(os.path.join(VERIF, 'evidence'), exist_ok=True)
-    with open(os.path.join(VERIF, 'evidence', '%s.json' % prop), 'w') as f:
+    evdir = os.path.join(VERIF, 'evidence') if os.path.realpath(REPO) == '/repo' else \
+        os.path.join(VERIF, 'evidence', '_scratch')
+    os.makedirs(evdir, exist_ok=True)
+    with open(os.path.join(evdir, '%s.json' % prop), 'w') as f:
         f.write(jdump(ev, indent=1, sort_keys=True))
         f.write('\n')
     print('%s tier=%s seed=%d evaluations=%d distinct=%d violations(new)=%d known=%d wall=%.1fs'
